@@ -212,11 +212,13 @@ class OptimizationAbstract(ABC, Generic[T]):
         self._errors = []
         self._error_diffs = []
 
+        self._workers = 4
         if workers is not None:
             if workers <= 0:
                 raise ValueError("Invalid number of workers. It must be greater than 0")
             self._workers = workers
 
+        self._mode = ModeSolver.SERIAL
         if mode is not None:
             try:
                 self._mode = ModeSolver(mode)
